@@ -314,6 +314,9 @@ class C19(Prop):
             nn = rng.choice([1, 2, 2, 3, 3, 4, 4, 5])
             cases.append({"kind": "from_tensor", "seed": sd(), "nnodes": nn, "mode": ["QR", "SVD", "tSVD"][j % 3],
                           "lowrank": j % 4 == 3, "mal": (j % 17 == 16)})
+        # large local dimension: a bond whose exact rank (121) exceeds the default max_bond_dim (100)
+        for mode in ["QR", "SVD", "tSVD"]:
+            cases.append({"kind": "from_tensor", "seed": sd(), "nnodes": 2, "mode": mode, "lowrank": False, "mal": False, "dims": [11, 11]})
         # --- Ising builders -----------------------------------------------------------------------------------
         for j in range((240 if th else 40) * budget_scale):
             cases.append({"kind": "ising_tree", "seed": sd(), "nnodes": rng.choice([1, 2, 3, 4, 5, 6, 7]), "flipped": j % 2 == 1,
@@ -916,6 +919,8 @@ class C19(Prop):
             while d > 1 and np.prod([x * x for x in dims] + [d * d]) > budget:
                 d -= 1
             dims.append(d)
+        if case.get("dims"):
+            dims = list(case["dims"])
         shape = dims + dims
         nprs = np.random.RandomState(case["seed"] % (2 ** 31))
         if case["lowrank"]:
